@@ -917,6 +917,10 @@ func (x *Exec) execRange(fr *Frame, st *State, ins *ssa.Range) {
 	st.ghost["$visited"] = VSet{empty}
 	st.ghost["$count"] = VScalar{IntLit(0)}
 	st.ghost["$dom0"] = VSet{x.define("dom0", Select(d, m))}
+	if x.rangeDom0 == nil {
+		x.rangeDom0 = map[*ssa.Range]string{}
+	}
+	x.rangeDom0[ins] = Select(d, m).S
 	st.ghost["$len0"] = VScalar{x.mapLen(st, ins.X.Type(), m)}
 	ghostTypes[x.key+"/$visited"] = &SType{Math: "set", Elem: goT(ins.X.Type().Underlying().(*types.Map).Key())}
 	ghostTypes[x.key+"/$dom0"] = &SType{Math: "set", Elem: goT(ins.X.Type().Underlying().(*types.Map).Key())}
@@ -952,10 +956,19 @@ func (x *Exec) execNext(fr *Frame, st *State, ins *ssa.Next) {
 	st.ghost["$visited"] = st.ghost[iterKey(rng)]
 	if cnt, has := st.ghost["$count"]; has {
 		c := cnt.(VScalar).T
-		unmodified := Eq(md, st.ghost["$dom0"].(VSet).T)
+		// counting facts: c is the number of keys visited so far, and these are pairwise different. If the map's
+		// key set is what it was when the iteration started and every visited key belongs to it (no key was
+		// inserted, visited and deleted again in between), then c < len0 while a key remains and c == len0 at
+		// the end. When the loop writes no map of this type the first condition holds syntactically.
+		dom0 := st.ghost["$dom0"].(VSet).T
+		unmodified := Eq(md, dom0)
+		if md.S == x.rangeDom0[rng] {
+			unmodified = True
+		}
+		sub := Term{fmt.Sprintf("(forall ((kk %s)) (! (=> %s %s) :pattern (%s)))", ks, Select(visited, kq).S, Select(dom0, kq).S, Select(visited, kq).S), SBool}
 		len0 := st.ghost["$len0"].(VScalar).T
-		x.assume(Implies(And(st.pc, unmodified, ok), Lt(c, len0)))
-		x.assume(Implies(And(st.pc, unmodified, Not(ok)), Eq(c, len0)))
+		x.assume(Implies(And(st.pc, unmodified, sub, ok), Lt(c, len0)))
+		x.assume(Implies(And(st.pc, unmodified, sub, Not(ok)), Eq(c, len0)))
 		st.ghost["$count"] = VScalar{x.define("count", Ite(ok, Add(c, IntLit(1)), c))}
 	}
 	fr.vals[ins] = VTuple{[]Value{VScalar{ok}, kv, val}}
